@@ -29,6 +29,12 @@ def raised_in_library(e):
     return last is not None
 
 
+def _enum_faithful():
+    import sys
+    st = sys.modules.get("symx.stubs")
+    return bool(st is not None and getattr(st, "ENUM_FAITHFUL", False))
+
+
 class PathAbort(BaseException):
     """assume() failed on this path: the path is outside the harness' precondition"""
 
@@ -1084,10 +1090,14 @@ class SymInt:
     @property
     def value(self):
         """IntEnum-like view: a symbolic integer stands in for an enum member (see stubs._enum_call)"""
+        if _enum_faithful():
+            raise AttributeError("'int' object has no attribute 'value'")     # members are real objects in that mode
         return self
 
     @property
     def name(self):
+        if _enum_faithful():
+            raise AttributeError("'int' object has no attribute 'name'")
         raise EngineLimit("name of a symbolic enum member")
 
     @property
